@@ -1238,7 +1238,11 @@ impl ElementRaw {
         file_version: AutosarVersion,
     ) -> Result<(), AutosarDataError> {
         // find the attribute specification in the item type
-        if let Some(AttributeSpec { spec, .. }) = self.elemtype.find_attribute_spec(attrname) {
+        if let Some(AttributeSpec { spec, version, .. }) = self.elemtype.find_attribute_spec(attrname) {
+            // the attribute must exist in the version of the file(s) that contain the element
+            if !file_version.compatible(version) {
+                return Err(AutosarDataError::InvalidAttribute);
+            }
             // the existing attribute gets updated
             if CharacterData::check_value(&value, spec, file_version) {
                 // find the attribute the element's attribute list
@@ -1267,9 +1271,14 @@ impl ElementRaw {
     ) -> Result<(), AutosarDataError> {
         if let Some(AttributeSpec {
             spec: character_data_spec,
+            version: attr_version_mask,
             ..
         }) = self.elemtype.find_attribute_spec(attrname)
         {
+            // the attribute must exist in the version of the file(s) that contain the element
+            if !version.compatible(attr_version_mask) {
+                return Err(AutosarDataError::InvalidAttribute);
+            }
             if let Some(value) = CharacterData::parse(stringvalue, character_data_spec, version) {
                 if let Some(attr) = self.attributes.iter_mut().find(|attr| attr.attrname == attrname) {
                     attr.content = value;
